@@ -271,7 +271,17 @@ def predicate(ctx, case, obs):
         for key, what in SNAP_KEYS:
             if r[key] != live[key]:
                 rep2 = dict(rep, difference=first_diff(live[key], r[key], key))
-                ctx.fail(rep2, 'after the %s reload the %s differs from the experiment that wrote the instance' % (which, what), [])
+                classes = []
+                if key == 'edges' and case['kind'] == 'loop' and case['k'] >= 1:
+                    # F7c: instantiate_dowhile_next_iteration merges every new complete graph into the live one and never
+                    # removes an edge: the live graph keeps edges from instances of loop components (N#name) to
+                    # consumers outside the loop that a graph built from the stored instance does not have
+                    L = set(map(tuple, live['edges']))
+                    R = set(map(tuple, r['edges']))
+                    if R <= L and all('#' in a.split('.', 1)[1] and '#' not in b.split('.', 1)[1] for a, b in L - R):
+                        classes = ['live_graph_keeps_edges_of_earlier_loop_iterations']
+                        rep2['extra_live_edges'] = sorted(L - R)
+                ctx.fail(rep2, 'after the %s reload the %s differs from the experiment that wrote the instance' % (which, what), classes)
                 break
     if len(obs['reloads']) < 2:
         ctx.fail(rep, 'second reload missing', [])
